@@ -13,6 +13,8 @@
 (*                                model follows the code as it was: read   *)
 (*                                lock + check, release, write lock +      *)
 (*                                unchecked change                         *)
+(*    removeval (map.remove)      one write lock: find the entry and       *)
+(*                                remove it                                *)
 (*    extend(c, d)                read lock on d + copy, release, write    *)
 (*                                lock on c + append                       *)
 (*    swap(c, d)                  write lock on c, then write lock on d    *)
@@ -35,6 +37,7 @@ EXTENDS SharedOps, Json, IOUtils
 (* Model checking: threads run micro-programs of lock steps                *)
 (***************************************************************************)
 TwoStep == IOEnv.TWOSTEP = "1"       \* follow list.insert / list.remove as they were before the repair
+TwoStepFind == IOEnv.TWOSTEP = "2"   \* remove-by-value looks the entry up and removes it under two separate locks
 NThreads == atoi(IOEnv.THREADS)
 OpsPer == atoi(IOEnv.OPS)
 Family == IOEnv.FAMILY               \* "single": operations on one container;  "pair": extend and swap on two containers
@@ -48,7 +51,7 @@ OpSet(t) ==
     IF Family = "pair" THEN {O("extend", 1, 2, 0, 0), O("extend", 2, 1, 0, 0), O("swap", 1, 2, 0, 0), O("swap", 2, 1, 0, 0),
                              O("push", 1, 0, 0, 100 * t)}
     ELSE {O("push", 1, 0, 0, 100 * t), O("pop", 1, 0, 0, 0), O("clear", 1, 0, 0, 0), O("get", 1, 0, 1, 0), O("size", 1, 0, 0, 0),
-          O("insert", 1, 0, 2, 100 * t + 1), O("remove", 1, 0, 1, 0)} \cup
+          O("insert", 1, 0, 2, 100 * t + 1), O("remove", 1, 0, 1, 0), O("removeval", 1, 0, 0, 10 * t)} \cup
          (IF IOEnv.FULLOPS = "1" THEN {O("insert", 1, 0, 0, 100 * t + 2), O("remove", 1, 0, 0, 0)} ELSE {})
 
 \* micro-programs: [a |-> "acq", c, m] / [a |-> "rel", c] / [a |-> "do", f]
@@ -61,6 +64,11 @@ Program(op) ==
       [] op.k \in {"get", "size"} -> <<Acq(op.c, "r"), Do("atomic"), Rel(op.c)>>
       [] op.k \in {"insert", "remove"} ->
             IF TwoStep THEN <<Acq(op.c, "r"), Do("check"), Rel(op.c), Acq(op.c, "w"), Do("unchecked"), Rel(op.c)>>
+            ELSE <<Acq(op.c, "w"), Do("atomic"), Rel(op.c)>>
+      [] op.k = "removeval" ->
+            \* TwoStep: look the entry up under the read lock, remove "the entry at that position" under the write lock
+            \* (the shape of a seeded change to KMap::remove; the code takes one write lock)
+            IF TwoStepFind THEN <<Acq(op.c, "r"), Do("find"), Rel(op.c), Acq(op.c, "w"), Do("remove_found"), Rel(op.c)>>
             ELSE <<Acq(op.c, "w"), Do("atomic"), Rel(op.c)>>
       [] op.k = "extend" -> <<Acq(op.d, "r"), Do("copy"), Rel(op.d), Acq(op.c, "w"), Do("append"), Rel(op.c)>>
       [] op.k = "swap" -> <<Acq(op.c, "w"), Acq(op.d, "w"), Do("atomic"), Rel(op.d), Rel(op.c)>>
@@ -131,6 +139,14 @@ Step(t) ==
                      THEN panic' = TRUE /\ obs' = [obs EXCEPT ![t] = Append(@, RP)] /\ UNCHANGED <<mem, tmp>>
                      ELSE LET r == Apply(mem, op) IN
                           mem' = r.mem /\ obs' = [obs EXCEPT ![t] = Append(@, r.res)] /\ UNCHANGED <<tmp, panic>>
+         [] f = "find" ->
+                (LET H == {i \in 1 .. Len(xs) : xs[i] = op.v} IN
+                 /\ tmp' = [tmp EXCEPT ![t] = IF H = {} THEN 0 ELSE CHOOSE i \in H : \A j \in H : i <= j]
+                 /\ UNCHANGED <<mem, obs, panic>>)
+         [] f = "remove_found" ->
+                (IF tmp[t] = 0 \/ tmp[t] > Len(xs) THEN obs' = [obs EXCEPT ![t] = Append(@, RN)] /\ UNCHANGED <<mem, tmp, panic>>
+                 ELSE /\ mem' = [mem EXCEPT ![op.c] = RemoveAt(xs, tmp[t] - 1)]
+                      /\ obs' = [obs EXCEPT ![t] = Append(@, RI(xs[tmp[t]]))] /\ UNCHANGED <<tmp, panic>>)
          [] f = "copy" -> tmp' = [tmp EXCEPT ![t] = mem[op.d]] /\ UNCHANGED <<mem, obs, panic>>
          [] f = "append" -> /\ mem' = [mem EXCEPT ![op.c] = @ \o tmp[t]]
                             /\ obs' = [obs EXCEPT ![t] = Append(@, RN)] /\ UNCHANGED <<tmp, panic>>
